@@ -502,7 +502,7 @@ func (c *Conn) Parse(data []byte) (retErr error) {
 					if fin {
 						message = c.message
 						c.message = nil
-						if c.compress {
+						if c.compress && message != nil {
 							var pb *[]byte
 							var rc io.ReadCloser
 							if c.WebsocketDecompressor != nil {
